@@ -171,6 +171,30 @@ func c07ScriptSet() [][2][]byte {
 				ders = append(ders, append(m, 0x41))
 			}
 		}
+		// header-consistent signatures whose R/S length fields point at, just before or beyond the end
+		for L := 8; L <= 12; L++ {
+			for rl := 0; rl <= L; rl++ {
+				for sl := 0; sl <= 6; sl++ {
+					b := make([]byte, L)
+					for i := range b {
+						b[i] = 0x01
+					}
+					b[0], b[1], b[2], b[3] = 0x30, byte(L-2), 0x02, byte(rl)
+					if 4+rl < L {
+						b[4+rl] = 0x02
+					}
+					if 5+rl < L {
+						b[5+rl] = byte(sl)
+					}
+					ders = append(ders, append(b, 0x41))
+					if 6+rl < L {
+						z := append([]byte(nil), b...)
+						z[6+rl] = 0x00 // leading zero of S
+						ders = append(ders, append(z, 0x41))
+					}
+				}
+			}
+		}
 		for _, sg := range ders {
 			add(pushAll(sg, k.comp), []byte{0xac})
 			add(pushAll([]byte{}, sg, []byte{0x01}, k.comp, []byte{0x01}), []byte{0xae})
